@@ -434,6 +434,16 @@ def rule_e(ctx, cr):
               "already been appended to the program's data segment, so a later READ delivers a "
               "constant that no listed line contains"
               % ("after appending" if ill else "nowhere (direct DATA is accepted)"))
+    sd = cr.need_fn("mach::link::Link::set_start_of_direct")
+    ctx.touch(sd)
+    on = [b for b, s_, v in sd.field_stores("direct_set") if sd.describe_value(v) == "const:True"]
+    off = [p_ for p_, g in cr.fns.items() for b, s_, v in g.field_stores("direct_set")
+           if g.describe_value(v) != "const:True" and not p_.endswith("::clear")
+           and not p_.endswith("::default") and not p_.endswith("::new")]
+    ctx.check(bool(on) and not off, "C04.e", "Link/direct_set-raised-at-direct-start", sd.span,
+              "set_start_of_direct raises direct_set; only clear() lowers it",
+              "direct_set is not raised when the direct part begins (or is lowered by %s): the "
+              "guard in Link::append never applies and direct DATA is appended to the program" % off)
     guard = False
     for b in ill:
         for c in f.conds_at(b):
